@@ -65,6 +65,38 @@ func VH_C03_area_with_hole() {
 	vReach("end")
 }
 
+// a fixed convex shell (a "house") in every spelling — any start vertex, either
+// winding, closed or not — with a free triangular hole strictly inside it
+func VH_C03_area_hole_fixed_shell() {
+	house := []Point{{X: -6, Y: -6}, {X: 6, Y: -6}, {X: 6, Y: 2}, {X: 0, Y: 7}, {X: -6, Y: 2}}
+	rot, rev := vChoose(5), vChoose(2) == 1
+	s := make([]Point, 5)
+	for i := range s {
+		j := (i + rot) % 5
+		if rev {
+			j = (5 - i + rot) % 5
+		}
+		s[i] = house[j]
+	}
+	// the hole: a fixed small triangle at a free grid position, any start vertex
+	d := vGridPt(4, 0)
+	tri := []Point{{X: d.X, Y: d.Y}, {X: d.X + 1, Y: d.Y}, {X: d.X, Y: d.Y + 1}}
+	hr := vChoose(3)
+	h := []Point{tri[hr], tri[(hr+1)%3], tri[(hr+2)%3]}
+	if vChoose(2) == 1 {
+		h[1], h[2] = h[2], h[1]
+	}
+	oh := 1.0
+	for _, q := range h {
+		for i := range house {
+			vAssume(vOrient(house[i], house[(i+1)%5], q) > 0)
+		}
+	}
+	pg := Polygon{vRing(s, vChoose(2) == 1), vRing(h, vChoose(2) == 1)}
+	vAssert(pg.Area() == 126-vAbs(oh)/2, "fixed-shell-minus-hole-any-spelling")
+	vReach("end")
+}
+
 func VH_C03_area_multipolygon() {
 	w := 4
 	a := vGridPath(3, 3, w, 0)
